@@ -157,6 +157,9 @@ func (ch *channel) addInitDataAndUpdateTimescale(stream stream, init *mp4.InitSe
 	if trak.Mdia.Mdhd == nil || len(trak.Mdia.Minf.Stbl.Stsd.Children) == 0 {
 		return fmt.Errorf("no mdhd box or sample entry found in track")
 	}
+	if trak.Mdia.Mdhd.Timescale == 0 {
+		return fmt.Errorf("media timescale is zero")
+	}
 	r.timeScaleIn = trak.Mdia.Mdhd.Timescale
 	r.timeScaleOut = r.timeScaleIn
 	switch stream.mediaType {
@@ -334,7 +337,9 @@ func (ch *channel) receivedSegData(rsd recSegData) {
 			for i := uint32(0); i < sdb.nrItems(); i++ {
 				if name == ch.masterTrName && ch.masterSegDuration == 0 {
 					// Evaluate the first two durations to see if they are consecutive with same duration. If not, drop the oldest one.
-					if sdb.items[1].seqNr != sdb.items[0].seqNr+1 || sdb.items[1].dur != sdb.items[0].dur {
+					// A zero duration cannot be a segment duration (it is used as divisor below).
+					if sdb.items[1].seqNr != sdb.items[0].seqNr+1 || sdb.items[1].dur != sdb.items[0].dur ||
+						sdb.items[1].dur == 0 {
 						ch.segTimesGen.dropSeqNr(sdb.items[0].seqNr)
 						return
 					}
